@@ -672,6 +672,24 @@ fn run_data(bytes: Arc<Vec<u8>>, fmt: InputFormat, o: &Opts) -> Report {
     if o.light {
         return rep;
     }
+    // the same document imported from a Nickel program through a real file (the AST-based import
+    // path of the cache, which is not the one a main file goes through)
+    {
+        let dir = std::env::temp_dir().join(format!("c10-import-{}", std::process::id()));
+        let _ = std::fs::create_dir_all(&dir);
+        let path = dir.join(file_name(fmt));
+        if std::fs::write(&path, bytes.as_slice()).is_ok() {
+            let prog_text = format!("import {}", escape_nickel_string(&path.to_string_lossy()));
+            let b = Arc::new(prog_text.into_bytes());
+            prog_stage(&mut rep, o, "data_import", &b, InputFormat::Nickel, move |prog, rep| {
+                nickel_lang_core::verif_hooks::set_fuel(fuel);
+                let v = prog.eval_full_for_export()?;
+                nickel_lang_core::verif_hooks::set_fuel(u64::MAX);
+                Ok(format!("ok:{}", export_all(prog, rep, &v, "data_import")))
+            });
+            let _ = std::fs::remove_file(&path);
+        }
+    }
     prog_stage(&mut rep, o, "data_typecheck", &bytes, fmt, move |prog, _rep| {
         prog.typecheck(TypecheckMode::Walk)?;
         Ok("ok".into())
